@@ -10,6 +10,8 @@ public:
   Filename(const char *s) : _filename(s) {}
   std::string _filename;
   std::string get_fullpath() const { return _filename; }
+  void set_text() {}
+  Filename &operator=(const std::string &s) { _filename = s; return *this; }
   bool empty() const { return _filename.empty(); }
   bool operator==(const Filename &o) const { return _filename == o._filename; }
   bool operator<(const Filename &o) const { return _filename < o._filename; }
